@@ -40,40 +40,33 @@ theorem agree_evalNode (sem : OpSem D E) {b : Nat} {env env' : Env D E} (n : ENo
   · rfl
   · exact h m hm
 
-theorem truthful_agree {b : Nat} {env env' : Env D E} (n : ENode) (hn : n.Below b) (h : Agree b env env')
-    (ht : Truthful env n) : Truthful env' n := by
+theorem getD_bind_agree {b : Nat} {env env' : Env D E} (n : ENode) (hn : n.Below b) (h : Agree b env env') (j : Nat) :
+    (n.ins.getD j none).bind env' = (n.ins.getD j none).bind env := by
+  cases hi : n.ins.getD j none with
+  | none => rfl
+  | some m =>
+    have hmem : some m ∈ n.ins := by
+      have : n.ins[j]? = some (some m) := by
+        simp only [List.getD_eq_getElem?_getD] at hi
+        cases hq : n.ins[j]? with
+        | none => simp [hq] at hi
+        | some q => simp [hq] at hi; rw [hi]
+      exact List.mem_of_getElem? this
+    exact (h m (hn.2 _ hmem m rfl)).symm
+
+theorem truthful_agree (chan : D → Nat) {b : Nat} {env env' : Env D E} (n : ENode) (hn : n.Below b) (h : Agree b env env')
+    (ht : Truthful chan env n) : Truthful chan env' n := by
   unfold Truthful at *
   cases hop : n.op with
   | groupNorm gn =>
     rw [hop] at ht
-    obtain ⟨h3, hdiv, s, b', hs, hb', ls, lb⟩ := ht
-    refine ⟨h3, hdiv, s, b', ?_, ?_, ls, lb⟩
-    · have : (n.ins.getD 1 none).bind env' = (n.ins.getD 1 none).bind env := by
-        cases hi : n.ins.getD 1 none with
-        | none => rfl
-        | some m =>
-          have hmem : some m ∈ n.ins := by
-            have : n.ins[1]? = some (some m) := by
-              simp only [List.getD_eq_getElem?_getD] at hi
-              cases hq : n.ins[1]? with
-              | none => simp [hq] at hi
-              | some q => simp [hq] at hi; rw [hi]
-            exact List.mem_of_getElem? this
-          exact (h m (hn.2 _ hmem m rfl)).symm
-      rw [this]; exact hs
-    · have : (n.ins.getD 2 none).bind env' = (n.ins.getD 2 none).bind env := by
-        cases hi : n.ins.getD 2 none with
-        | none => rfl
-        | some m =>
-          have hmem : some m ∈ n.ins := by
-            have : n.ins[2]? = some (some m) := by
-              simp only [List.getD_eq_getElem?_getD] at hi
-              cases hq : n.ins[2]? with
-              | none => simp [hq] at hi
-              | some q => simp [hq] at hi; rw [hi]
-            exact List.mem_of_getElem? this
-          exact (h m (hn.2 _ hmem m rfl)).symm
-      rw [this]; exact hb'
+    obtain ⟨h3, hdiv, ⟨s, b', hs, hb', ls, lb⟩, hx⟩ := ht
+    refine ⟨h3, hdiv, ⟨s, b', ?_, ?_, ls, lb⟩, ?_⟩
+    · rw [getD_bind_agree n hn h 1]; exact hs
+    · rw [getD_bind_agree n hn h 2]; exact hb'
+    · rcases hx with hx | ⟨dx, h1, h2⟩
+      · exact Or.inl hx
+      · exact Or.inr ⟨dx, by rw [getD_bind_agree n hn h 0]; exact h1, h2⟩
   | dft a b c d e f => rw [hop] at ht; exact ht
   | plain _ => trivial
   | const _ _ => trivial
@@ -87,16 +80,16 @@ theorem meaning_quiet {op : Op} {v : Nat} (h : ∀ v', v ≤ v' → adapt op v' 
   | zero => rfl
   | succ k ih => rw [← ih, ← Nat.add_assoc]; exact meaning_mono_lemma _ _ (h _ (by omega))
 
-theorem evalOp_ver (sem : OpSem D E) (hl : Laws sem) (op : Op) (v v' : Nat) (ins : List (Option (Val D E)))
+theorem evalOp_ver (sem : OpSem D E) (chan : D → Nat) (hl : Laws sem chan) (op : Op) (v v' : Nat) (ins : List (Option (Val D E)))
     (h : op.meaning v = op.meaning v') : evalOp sem op v ins = evalOp sem op v' ins := by
   unfold evalOp
   split <;> first | rfl | exact hl.sameMeaning _ _ _ _ h
 
-theorem evalNode_ver (sem : OpSem D E) (hl : Laws sem) (env : Env D E) (n : ENode) (v' : Nat)
+theorem evalNode_ver (sem : OpSem D E) (chan : D → Nat) (hl : Laws sem chan) (env : Env D E) (n : ENode) (v' : Nat)
     (h : n.op.meaning n.ver = n.op.meaning v') : evalNode sem env { n with ver := v' } = evalNode sem env n := by
   unfold evalNode
   simp only []
-  rw [evalOp_ver sem hl n.op n.ver v' _ h]
+  rw [evalOp_ver sem chan hl n.op n.ver v' _ h]
 
 /-- Stamp-only steps. -/
 theorem stepsE_quiet (k : Nat) : ∀ (v : Nat) (n : ENode) (f : Nat), n.ver = v →
@@ -171,7 +164,7 @@ theorem evalOp_sem_gn (sem : OpSem D E) (g : GN) (v : Nat) ins :
     evalOp sem (.groupNorm g) v ins = sem (.groupNorm g) v ins := by
   simp [evalOp]
 
-theorem rewrite_eval_gs (sem : OpSem D E) (hl : Laws sem) (env : Env D E) (n : ENode) (v f b : Nat) (news : List Op)
+theorem rewrite_eval_gs (sem : OpSem D E) (chan : D → Nat) (hl : Laws sem chan) (env : Env D E) (n : ENode) (v f b : Nat) (news : List Op)
     (m : Option String) (a : Option Int) (p : Option String) (hop : n.op = .gridSample m a p)
     (hA : adapt n.op v = .replaced news) (hver : n.ver = v) (hvalid : (n.op.meaning v).isSome) :
     ∃ news' f', rewriteE n v f = some (news', f') ∧ f ≤ f' ∧ news'.map (·.op) = news ∧ (∀ x ∈ news', x.ver = v + 1) ∧
@@ -223,11 +216,11 @@ theorem rewrite_eval_gs (sem : OpSem D E) (hl : Laws sem) (env : Env D E) (n : E
         simp [Op.meaning, gsInterp, Option.getD]
     · cases hA
 
-theorem rewrite_eval_dft (sem : OpSem D E) (hl : Laws sem) (env : Env D E) (n : ENode) (v f b : Nat) (news : List Op)
+theorem rewrite_eval_dft (sem : OpSem D E) (chan : D → Nat) (hl : Laws sem chan) (env : Env D E) (n : ENode) (v f b : Nat) (news : List Op)
     (ax inv one : Option Int) (hasLen : Bool) (axisIn : Option Int) (rank : Nat)
     (hop : n.op = .dft ax inv one hasLen axisIn rank)
     (hA : adapt n.op v = .replaced news) (hver : n.ver = v) (hb : n.Below b) (hbf : b ≤ f)
-    (hvalid : (n.op.meaning v).isSome) (ht : Truthful env n) :
+    (hvalid : (n.op.meaning v).isSome) (ht : Truthful chan env n) :
     ∃ news' f', rewriteE n v f = some (news', f') ∧ f ≤ f' ∧ news'.map (·.op) = news ∧ (∀ x ∈ news', x.ver = v + 1) ∧
       Agree b (evalNodes sem env news') (evalNode sem env n) := by
   have hA0 := hA
@@ -318,14 +311,70 @@ theorem chain_eval (sem : OpSem D E) (e : Env D E) (src cA cB cC o1 o2 o3 w k : 
     simp only [evalNodes]
     rw [evalNode_ne sem _ _ m3, evalNode_ne sem _ _ m2, evalNode_ne sem _ _ m1]
 
-theorem rewrite_eval_gn (sem : OpSem D E) (hl : Laws sem) (env : Env D E) (n : ENode) (v f b : Nat) (news : List Op)
+theorem int_div_toNat (a b : Nat) : ((a : Int) / (b : Int)).toNat = a / b := by
+  have : ((a : Int) / (b : Int)) = ((a / b : Nat) : Int) := (Int.natCast_ediv a b).symm
+  rw [this]; exact Int.toNat_natCast _
+
+/-- The run-time-ratio chain `Shape(src) ; Div(ch,·) ; Reshape(src,[-1,1]) ; Concat([1],·) ; Expand ; Reshape(·,[-1])`:
+the last value is `expandScale (C / |vs|) vs`, nothing but the six outputs changes. -/
+theorem chain_dyn_eval (sem : OpSem D E) (e : Env D E) (src cA cB one ch o1 o2 o3 o4 o5 o6 w C : Nat) (vs : List E)
+    (h1 : e src = some (.vec vs)) (hA : e cA = some (.ints [-1, 1])) (hB : e cB = some (.ints [-1]))
+    (h1c : e one = some (.ints [1])) (hch : e ch = some (.ints [(C : Int)]))
+    (d1 : ch ≠ o1) (d2 : src ≠ o1) (d3 : src ≠ o2) (d4 : cA ≠ o1) (d5 : cA ≠ o2)
+    (d6 : one ≠ o1) (d7 : one ≠ o2) (d8 : one ≠ o3) (d9 : o2 ≠ o3) (d10 : o3 ≠ o4)
+    (d11 : cB ≠ o1) (d12 : cB ≠ o2) (d13 : cB ≠ o3) (d14 : cB ≠ o4) (d15 : cB ≠ o5) :
+    (evalNodes sem e [{ op := .plain "Shape", ver := w, ins := [some src], out := o1 },
+                      { op := .plain "Div", ver := w, ins := [some ch, some o1], out := o2 },
+                      { op := .plain "Reshape", ver := w, ins := [some src, some cA], out := o3 },
+                      { op := .plain "Concat", ver := w, ins := [some one, some o2], out := o4 },
+                      { op := .plain "Expand", ver := w, ins := [some o3, some o4], out := o5 },
+                      { op := .plain "Reshape", ver := w, ins := [some o5, some cB], out := o6 }]) o6
+        = some (.vec (expandScale (C / vs.length) vs)) ∧
+    ∀ m, m ≠ o1 → m ≠ o2 → m ≠ o3 → m ≠ o4 → m ≠ o5 → m ≠ o6 →
+      (evalNodes sem e [{ op := .plain "Shape", ver := w, ins := [some src], out := o1 },
+                        { op := .plain "Div", ver := w, ins := [some ch, some o1], out := o2 },
+                        { op := .plain "Reshape", ver := w, ins := [some src, some cA], out := o3 },
+                        { op := .plain "Concat", ver := w, ins := [some one, some o2], out := o4 },
+                        { op := .plain "Expand", ver := w, ins := [some o3, some o4], out := o5 },
+                        { op := .plain "Reshape", ver := w, ins := [some o5, some cB], out := o6 }]) m = e m := by
+  simp only [evalNodes]
+  generalize he1 : evalNode sem e { op := .plain "Shape", ver := w, ins := [some src], out := o1 } = e1
+  have v1 : e1 o1 = some (.ints [(vs.length : Int)]) := by
+    rw [← he1, evalNode_out]; simp [Option.bind, h1, evalOp]
+  have k1 : ∀ m, m ≠ o1 → e1 m = e m := fun m hm => by rw [← he1]; exact evalNode_ne sem _ _ hm
+  generalize he2 : evalNode sem e1 { op := .plain "Div", ver := w, ins := [some ch, some o1], out := o2 } = e2
+  have v2 : e2 o2 = some (.ints [(C : Int) / (vs.length : Int)]) := by
+    rw [← he2, evalNode_out]; simp [Option.bind, k1 ch d1, hch, v1, evalOp]
+  have k2 : ∀ m, m ≠ o2 → e2 m = e1 m := fun m hm => by rw [← he2]; exact evalNode_ne sem _ _ hm
+  generalize he3 : evalNode sem e2 { op := .plain "Reshape", ver := w, ins := [some src, some cA], out := o3 } = e3
+  have v3 : e3 o3 = some (.mat (reshapeCol vs)) := by
+    rw [← he3, evalNode_out]
+    simp [Option.bind, k2 src d3, k1 src d2, h1, k2 cA d5, k1 cA d4, hA, evalOp]
+  have k3 : ∀ m, m ≠ o3 → e3 m = e2 m := fun m hm => by rw [← he3]; exact evalNode_ne sem _ _ hm
+  generalize he4 : evalNode sem e3 { op := .plain "Concat", ver := w, ins := [some one, some o2], out := o4 } = e4
+  have v4 : e4 o4 = some (.ints [1, (C : Int) / (vs.length : Int)]) := by
+    rw [← he4, evalNode_out]
+    simp [Option.bind, k3 one d8, k2 one d7, k1 one d6, h1c, k3 o2 d9, v2, evalOp]
+  have k4 : ∀ m, m ≠ o4 → e4 m = e3 m := fun m hm => by rw [← he4]; exact evalNode_ne sem _ _ hm
+  generalize he5 : evalNode sem e4 { op := .plain "Expand", ver := w, ins := [some o3, some o4], out := o5 } = e5
+  have v5 : e5 o5 = some (.mat (expandRows (C / vs.length) (reshapeCol vs))) := by
+    rw [← he5, evalNode_out]
+    simp [Option.bind, k4 o3 d10, v3, v4, evalOp, int_div_toNat]
+  have k5 : ∀ m, m ≠ o5 → e5 m = e4 m := fun m hm => by rw [← he5]; exact evalNode_ne sem _ _ hm
+  constructor
+  · rw [evalNode_out]
+    simp [Option.bind, v5, k5 cB d15, k4 cB d14, k3 cB d13, k2 cB d12, k1 cB d11, hB, evalOp, expandScale]
+  · intro m m1 m2 m3 m4 m5 m6
+    rw [evalNode_ne sem _ _ m6, k5 m m5, k4 m m4, k3 m m3, k2 m m2, k1 m m1]
+
+theorem rewrite_eval_gn (sem : OpSem D E) (chan : D → Nat) (hl : Laws sem chan) (env : Env D E) (n : ENode) (v f b : Nat) (news : List Op)
     (gn : GN) (hop : n.op = .groupNorm gn)
     (hA : adapt n.op v = .replaced news) (hver : n.ver = v) (hb : n.Below b) (hbf : b ≤ f)
-    (ht : Truthful env n) :
+    (hvalid : (n.op.meaning v).isSome) (ht : Truthful chan env n) :
     ∃ news' f', rewriteE n v f = some (news', f') ∧ f ≤ f' ∧ news'.map (·.op) = news ∧ (∀ x ∈ news', x.ver = v + 1) ∧
       Agree b (evalNodes sem env news') (evalNode sem env n) := by
   have hA0 := hA
-  rw [hop] at hA
+  rw [hop] at hA hvalid
   have hv : v = 20 := by
     simp only [adapt] at hA
     split at hA
@@ -333,16 +382,26 @@ theorem rewrite_eval_gn (sem : OpSem D E) (hl : Laws sem) (env : Env D E) (n : E
     · cases hA
   subst hv
   simp only [adapt, if_true] at hA
-  obtain ⟨g, hg, hnews, hx, hs, hbias, _, hgc, hgs, hgb⟩ := gn_replaced hA
+  obtain ⟨hx, hs, hbias, g, hg, hcase⟩ := gn_replaced hA
+  -- validity at opset 20: per-group scale and bias, channels split evenly
+  have hval : g * (gn.c / g) = gn.c ∧ gn.sLen = g ∧ gn.bLen = g := by
+    simp only [Op.meaning, hg, hx, hs, hbias, Bool.and_self, Bool.not_true, Bool.false_eq_true, if_false,
+      Nat.le_refl, if_true] at hvalid
+    by_cases hd : g * (gn.c / g) ≠ gn.c
+    · simp [hd] at hvalid
+    · by_cases hl : gn.sLen = g ∧ gn.bLen = g
+      · exact ⟨by omega, hl.1, hl.2⟩
+      · simp [hd, hl] at hvalid
+  obtain ⟨hgk0, hls, hlb⟩ := hval
   unfold Truthful at ht
   rw [hop] at ht
   simp only [hg, Option.getD] at ht
-  obtain ⟨h3, hdiv, sv, bv, hsv, hbv, lsv, lbv⟩ := ht
+  obtain ⟨h3, hdiv, ⟨sv, bv, hsv, hbv, lsv, lbv⟩, hxdata⟩ := ht
   obtain ⟨xI, sI, bI, hins⟩ : ∃ x s b', n.ins = [x, s, b'] := by
     match hq : n.ins, h3 with
     | [x, s, b'], _ => exact ⟨x, s, b', rfl⟩
-  rw [hins] at hsv hbv
-  simp only [List.getD_cons_succ, List.getD_cons_zero] at hsv hbv
+  rw [hins] at hsv hbv hxdata
+  simp only [List.getD_cons_succ, List.getD_cons_zero] at hsv hbv hxdata
   obtain ⟨sm, rfl⟩ : ∃ sm, sI = some sm := by cases sI <;> simp_all
   obtain ⟨bm, rfl⟩ : ∃ bm, bI = some bm := by cases bI <;> simp_all
   have hsm : sm < f := Nat.lt_of_lt_of_le (hb.2 (some sm) (by simp [hins]) sm rfl) hbf
@@ -351,161 +410,241 @@ theorem rewrite_eval_gn (sem : OpSem D E) (hl : Laws sem) (env : Env D E) (n : E
     Nat.lt_of_lt_of_le (hb.2 xI (by simp [hins]) xm h) hbf
   have hout : n.out < f := Nat.lt_of_lt_of_le hb.1 hbf
   simp only [Option.bind] at hsv hbv
-  subst hnews
-  let k := gn.c / g
-  let gn' : GN := { gn with sLen := g * k, bLen := g * k, sVis := .missing, bVis := .missing }
-  refine ⟨[{ op := .const false [-1, 1], ver := 20 + 1, ins := [], out := f },
+  have hconst : ∀ (is : List Int) (w : Nat), evalOp sem (.const false is) w [] = some (.ints is) := by
+    intro is w; simp [evalOp]
+  rcases hcase with ⟨hns, hnews⟩ | ⟨_, hnews, hgc, hgs, hgb⟩
+  · -- run-time-ratio rewrite
+    subst hnews
+    obtain ⟨dx, hxd, hchan⟩ : ∃ dx : D, xI.bind env = some (.data dx) ∧ chan dx = gn.c := by
+      rcases hxdata with hst | h
+      · exact absurd hst hns
+      · exact h
+    obtain ⟨xm, rfl⟩ : ∃ xm, xI = some xm := by cases xI <;> simp_all
+    have hxmf : xm < f := hxm xm rfl
+    simp only [Option.bind] at hxd
+    let gn' : GN := { gn with sLen := gn.sLen * (gn.c / gn.sLen), bLen := gn.bLen * (gn.c / gn.bLen),
+                              sVis := .missing, bVis := .missing }
+    refine ⟨[{ op := .const false [-1, 1], ver := 20 + 1, ins := [], out := f },
+             { op := .const false [-1], ver := 20 + 1, ins := [], out := f + 1 },
+             { op := .const false [1], ver := 20 + 1, ins := [], out := f + 2 },
+             { op := .plain "Shape", ver := 20 + 1, ins := [some xm], out := f + 3 },
+             { op := .plain "Shape", ver := 20 + 1, ins := [some sm], out := f + 4 },
+             { op := .plain "Div", ver := 20 + 1, ins := [some (f + 3), some (f + 4)], out := f + 5 },
+             { op := .plain "Reshape", ver := 20 + 1, ins := [some sm, some f], out := f + 6 },
+             { op := .plain "Concat", ver := 20 + 1, ins := [some (f + 2), some (f + 5)], out := f + 7 },
+             { op := .plain "Expand", ver := 20 + 1, ins := [some (f + 6), some (f + 7)], out := f + 8 },
+             { op := .plain "Reshape", ver := 20 + 1, ins := [some (f + 8), some (f + 1)], out := f + 9 },
+             { op := .plain "Shape", ver := 20 + 1, ins := [some bm], out := f + 10 },
+             { op := .plain "Div", ver := 20 + 1, ins := [some (f + 3), some (f + 10)], out := f + 11 },
+             { op := .plain "Reshape", ver := 20 + 1, ins := [some bm, some f], out := f + 12 },
+             { op := .plain "Concat", ver := 20 + 1, ins := [some (f + 2), some (f + 11)], out := f + 13 },
+             { op := .plain "Expand", ver := 20 + 1, ins := [some (f + 12), some (f + 13)], out := f + 14 },
+             { op := .plain "Reshape", ver := 20 + 1, ins := [some (f + 14), some (f + 1)], out := f + 15 },
+             { op := .groupNorm gn', ver := 20 + 1, ins := [some xm, some (f + 9), some (f + 15)], out := n.out }],
+            f + 16, ?_, by omega, ?_, ?_, ?_⟩
+    · simp only [rewriteE, hop]
+      rw [hop] at hA0
+      rw [hA0]
+      simp [gnDynReplacement, hins, gn']
+    · simp [gnDynReplacement, gn']
+    · intro x hx'
+      simp only [List.mem_cons, List.mem_nil_iff, or_false] at hx'
+      rcases hx' with rfl | rfl | rfl | rfl | rfl | rfl | rfl | rfl | rfl | rfl | rfl | rfl | rfl | rfl | rfl | rfl | rfl <;> rfl
+    · intro q hq
+      have hqf : q < f := Nat.lt_of_lt_of_le hq hbf
+      rw [show ∀ (a0 a1 a2 a3 b0 b1 b2 b3 b4 b5 c0 c1 c2 c3 c4 c5 z : ENode),
+          [a0, a1, a2, a3, b0, b1, b2, b3, b4, b5, c0, c1, c2, c3, c4, c5, z]
+            = [a0, a1, a2, a3] ++ ([b0, b1, b2, b3, b4, b5] ++ ([c0, c1, c2, c3, c4, c5] ++ [z])) from
+          fun _ _ _ _ _ _ _ _ _ _ _ _ _ _ _ _ _ => rfl]
+      rw [evalNodes_append, evalNodes_append, evalNodes_append]
+      generalize he4 : evalNodes sem env
+          [{ op := .const false [-1, 1], ver := 20 + 1, ins := [], out := f },
            { op := .const false [-1], ver := 20 + 1, ins := [], out := f + 1 },
-           { op := .const false [1, (k : Int)], ver := 20 + 1, ins := [], out := f + 2 },
-           { op := .plain "Reshape", ver := 20 + 1, ins := [some sm, some f], out := f + 3 },
-           { op := .plain "Expand", ver := 20 + 1, ins := [some (f + 3), some (f + 2)], out := f + 4 },
-           { op := .plain "Reshape", ver := 20 + 1, ins := [some (f + 4), some (f + 1)], out := f + 5 },
-           { op := .plain "Reshape", ver := 20 + 1, ins := [some bm, some f], out := f + 6 },
-           { op := .plain "Expand", ver := 20 + 1, ins := [some (f + 6), some (f + 2)], out := f + 7 },
-           { op := .plain "Reshape", ver := 20 + 1, ins := [some (f + 7), some (f + 1)], out := f + 8 },
-           { op := .groupNorm gn', ver := 20 + 1, ins := [xI, some (f + 5), some (f + 8)], out := n.out }],
-          f + 9, ?_, by omega, ?_, ?_, ?_⟩
-  · simp only [rewriteE, hop]
-    rw [hop] at hA0
-    rw [hA0]
-    simp [gnReplacement, hins, k, gn']
-  · simp [gnReplacement, k, gn']
-  · intro x hx'
-    simp only [List.mem_cons, List.mem_nil_iff, or_false] at hx'
-    rcases hx' with rfl | rfl | rfl | rfl | rfl | rfl | rfl | rfl | rfl | rfl <;> rfl
-  · intro q hq
-    have hqf : q < f := Nat.lt_of_lt_of_le hq hbf
-    have hgk : g * k = gn.c := by rw [Nat.mul_comm]; exact hdiv
-    have hconst : ∀ (is : List Int) (w : Nat), evalOp sem (.const false is) w [] = some (.ints is) := by
-      intro is w; simp [evalOp]
-    -- split the block: constants, scale chain, bias chain, the rewritten node
-    rw [show ([{ op := .const false [-1, 1], ver := 20 + 1, ins := [], out := f },
+           { op := .const false [1], ver := 20 + 1, ins := [], out := f + 2 },
+           { op := .plain "Shape", ver := 20 + 1, ins := [some xm], out := f + 3 }] = e4
+      have e4lt : ∀ m, m < f → e4 m = env m := by
+        intro m hm; rw [← he4]
+        exact frame_fresh sem f _ env (by intro x hx; simp at hx; rcases hx with rfl | rfl | rfl | rfl <;> simp) m hm
+      have e4f : e4 f = some (.ints [-1, 1]) := by
+        rw [← he4]; simp only [evalNodes]
+        rw [evalNode_ne sem _ _ (by simp), evalNode_ne sem _ _ (by simp), evalNode_ne sem _ _ (by simp), evalNode_out]
+        exact hconst _ _
+      have e4f1 : e4 (f + 1) = some (.ints [-1]) := by
+        rw [← he4]; simp only [evalNodes]
+        rw [evalNode_ne sem _ _ (by simp), evalNode_ne sem _ _ (by simp), evalNode_out]; exact hconst _ _
+      have e4f2 : e4 (f + 2) = some (.ints [1]) := by
+        rw [← he4]; simp only [evalNodes]
+        rw [evalNode_ne sem _ _ (by simp), evalNode_out]; exact hconst _ _
+      have e4f3 : e4 (f + 3) = some (.ints [(gn.c : Int)]) := by
+        rw [← he4]; simp only [evalNodes]
+        rw [evalNode_out]
+        simp only [List.map_cons, List.map_nil, Option.bind]
+        rw [evalNode_ne sem _ _ (by simp; omega), evalNode_ne sem _ _ (by simp; omega), evalNode_ne sem _ _ (by simp; omega), hxd]
+        have hsh : evalOp sem (.plain "Shape") (20 + 1) [some (.data dx)] = sem (.plain "Shape") (20 + 1) [some (.data dx)] := by
+          simp [evalOp]
+        rw [hsh, hl.shape, hchan]
+      obtain ⟨c1, c2⟩ := chain_dyn_eval sem e4 sm f (f + 1) (f + 2) (f + 3) (f + 4) (f + 5) (f + 6) (f + 7) (f + 8)
+        (f + 9) (20 + 1) gn.c sv (by rw [e4lt sm hsm]; exact hsv) e4f e4f1 e4f2 e4f3
+        (by omega) (by omega) (by omega) (by omega) (by omega) (by omega) (by omega) (by omega) (by omega) (by omega)
+        (by omega) (by omega) (by omega) (by omega) (by omega)
+      generalize he10 : evalNodes sem e4
+          [{ op := .plain "Shape", ver := 20 + 1, ins := [some sm], out := f + 4 },
+           { op := .plain "Div", ver := 20 + 1, ins := [some (f + 3), some (f + 4)], out := f + 5 },
+           { op := .plain "Reshape", ver := 20 + 1, ins := [some sm, some f], out := f + 6 },
+           { op := .plain "Concat", ver := 20 + 1, ins := [some (f + 2), some (f + 5)], out := f + 7 },
+           { op := .plain "Expand", ver := 20 + 1, ins := [some (f + 6), some (f + 7)], out := f + 8 },
+           { op := .plain "Reshape", ver := 20 + 1, ins := [some (f + 8), some (f + 1)], out := f + 9 }] = e10 at c1 c2
+      have keep : ∀ m, m < f + 4 → e10 m = e4 m := fun m hm =>
+        c2 m (by omega) (by omega) (by omega) (by omega) (by omega) (by omega)
+      obtain ⟨c3, c4⟩ := chain_dyn_eval sem e10 bm f (f + 1) (f + 2) (f + 3) (f + 10) (f + 11) (f + 12) (f + 13) (f + 14)
+        (f + 15) (20 + 1) gn.c bv (by rw [keep bm (by omega), e4lt bm hbm]; exact hbv)
+        (by rw [keep f (by omega)]; exact e4f) (by rw [keep (f + 1) (by omega)]; exact e4f1)
+        (by rw [keep (f + 2) (by omega)]; exact e4f2) (by rw [keep (f + 3) (by omega)]; exact e4f3)
+        (by omega) (by omega) (by omega) (by omega) (by omega) (by omega) (by omega) (by omega) (by omega) (by omega)
+        (by omega) (by omega) (by omega) (by omega) (by omega)
+      generalize he16 : evalNodes sem e10
+          [{ op := .plain "Shape", ver := 20 + 1, ins := [some bm], out := f + 10 },
+           { op := .plain "Div", ver := 20 + 1, ins := [some (f + 3), some (f + 10)], out := f + 11 },
+           { op := .plain "Reshape", ver := 20 + 1, ins := [some bm, some f], out := f + 12 },
+           { op := .plain "Concat", ver := 20 + 1, ins := [some (f + 2), some (f + 11)], out := f + 13 },
+           { op := .plain "Expand", ver := 20 + 1, ins := [some (f + 12), some (f + 13)], out := f + 14 },
+           { op := .plain "Reshape", ver := 20 + 1, ins := [some (f + 14), some (f + 1)], out := f + 15 }] = e16 at c3 c4
+      have e16lt : ∀ m, m < f → e16 m = env m := by
+        intro m hm
+        rw [c4 m (by omega) (by omega) (by omega) (by omega) (by omega) (by omega), keep m (by omega), e4lt m hm]
+      have e16s : e16 (f + 9) = some (.vec (expandScale (gn.c / sv.length) sv)) := by
+        rw [c4 (f + 9) (by omega) (by omega) (by omega) (by omega) (by omega) (by omega)]; exact c1
+      simp only [evalNodes]
+      by_cases hqo : q = n.out
+      · subst hqo
+        rw [evalNode_out, evalNode_out]
+        simp only [List.map_cons, List.map_nil, hop, hver, hins, evalOp_sem_gn]
+        simp only [Option.bind, e16s, c3, hsv, hbv, e16lt xm hxmf, hxd]
+        have hsl : sv.length = g := by omega
+        have hbl : bv.length = g := by omega
+        rw [hsl, hbl]
+        exact hl.groupNorm gn gn' g (gn.c / g) (some (.data dx)) sv bv hg hsl hbl hgk0 rfl rfl rfl rfl rfl rfl
+      · rw [evalNode_ne sem _ _ (by exact hqo), evalNode_ne sem env n hqo]
+        exact e16lt q hqf
+  · -- static rewrite
+    subst hnews
+    have hgk : g * (gn.c / g) = gn.c := hgk0
+    let k := gn.c / g
+    let gn' : GN := { gn with sLen := g * k, bLen := g * k, sVis := .missing, bVis := .missing }
+    refine ⟨[{ op := .const false [-1, 1], ver := 20 + 1, ins := [], out := f },
+             { op := .const false [-1], ver := 20 + 1, ins := [], out := f + 1 },
+             { op := .const false [1, (k : Int)], ver := 20 + 1, ins := [], out := f + 2 },
+             { op := .plain "Reshape", ver := 20 + 1, ins := [some sm, some f], out := f + 3 },
+             { op := .plain "Expand", ver := 20 + 1, ins := [some (f + 3), some (f + 2)], out := f + 4 },
+             { op := .plain "Reshape", ver := 20 + 1, ins := [some (f + 4), some (f + 1)], out := f + 5 },
+             { op := .plain "Reshape", ver := 20 + 1, ins := [some bm, some f], out := f + 6 },
+             { op := .plain "Expand", ver := 20 + 1, ins := [some (f + 6), some (f + 2)], out := f + 7 },
+             { op := .plain "Reshape", ver := 20 + 1, ins := [some (f + 7), some (f + 1)], out := f + 8 },
+             { op := .groupNorm gn', ver := 20 + 1, ins := [xI, some (f + 5), some (f + 8)], out := n.out }],
+            f + 9, ?_, by omega, ?_, ?_, ?_⟩
+    · simp only [rewriteE, hop]
+      rw [hop] at hA0
+      rw [hA0]
+      simp [gnReplacement, hins, k, gn']
+    · simp [gnReplacement, k, gn']
+    · intro x hx'
+      simp only [List.mem_cons, List.mem_nil_iff, or_false] at hx'
+      rcases hx' with rfl | rfl | rfl | rfl | rfl | rfl | rfl | rfl | rfl | rfl <;> rfl
+    · intro q hq
+      have hqf : q < f := Nat.lt_of_lt_of_le hq hbf
+      -- split the block: constants, scale chain, bias chain, the rewritten node
+      rw [show ([{ op := .const false [-1, 1], ver := 20 + 1, ins := [], out := f },
+             { op := .const false [-1], ver := 20 + 1, ins := [], out := f + 1 },
+             { op := .const false [1, (k : Int)], ver := 20 + 1, ins := [], out := f + 2 },
+             { op := .plain "Reshape", ver := 20 + 1, ins := [some sm, some f], out := f + 3 },
+             { op := .plain "Expand", ver := 20 + 1, ins := [some (f + 3), some (f + 2)], out := f + 4 },
+             { op := .plain "Reshape", ver := 20 + 1, ins := [some (f + 4), some (f + 1)], out := f + 5 },
+             { op := .plain "Reshape", ver := 20 + 1, ins := [some bm, some f], out := f + 6 },
+             { op := .plain "Expand", ver := 20 + 1, ins := [some (f + 6), some (f + 2)], out := f + 7 },
+             { op := .plain "Reshape", ver := 20 + 1, ins := [some (f + 7), some (f + 1)], out := f + 8 },
+             { op := .groupNorm gn', ver := 20 + 1, ins := [xI, some (f + 5), some (f + 8)], out := n.out }] : List ENode)
+          = [{ op := .const false [-1, 1], ver := 20 + 1, ins := [], out := f },
+             { op := .const false [-1], ver := 20 + 1, ins := [], out := f + 1 },
+             { op := .const false [1, (k : Int)], ver := 20 + 1, ins := [], out := f + 2 }] ++
+            ([{ op := .plain "Reshape", ver := 20 + 1, ins := [some sm, some f], out := f + 3 },
+             { op := .plain "Expand", ver := 20 + 1, ins := [some (f + 3), some (f + 2)], out := f + 4 },
+             { op := .plain "Reshape", ver := 20 + 1, ins := [some (f + 4), some (f + 1)], out := f + 5 }] ++
+            ([{ op := .plain "Reshape", ver := 20 + 1, ins := [some bm, some f], out := f + 6 },
+             { op := .plain "Expand", ver := 20 + 1, ins := [some (f + 6), some (f + 2)], out := f + 7 },
+             { op := .plain "Reshape", ver := 20 + 1, ins := [some (f + 7), some (f + 1)], out := f + 8 }] ++
+            [{ op := .groupNorm gn', ver := 20 + 1, ins := [xI, some (f + 5), some (f + 8)], out := n.out }])) from rfl]
+      rw [evalNodes_append, evalNodes_append, evalNodes_append]
+      generalize he3 : evalNodes sem env
+          [{ op := .const false [-1, 1], ver := 20 + 1, ins := [], out := f },
            { op := .const false [-1], ver := 20 + 1, ins := [], out := f + 1 },
-           { op := .const false [1, (k : Int)], ver := 20 + 1, ins := [], out := f + 2 },
-           { op := .plain "Reshape", ver := 20 + 1, ins := [some sm, some f], out := f + 3 },
+           { op := .const false [1, (k : Int)], ver := 20 + 1, ins := [], out := f + 2 }] = e3
+      have e3f : e3 f = some (.ints [-1, 1]) := by
+        rw [← he3]; simp only [evalNodes]
+        rw [evalNode_ne sem _ _ (by simp), evalNode_ne sem _ _ (by simp), evalNode_out]; exact hconst _ _
+      have e3f1 : e3 (f + 1) = some (.ints [-1]) := by
+        rw [← he3]; simp only [evalNodes]
+        rw [evalNode_ne sem _ _ (by simp), evalNode_out]; exact hconst _ _
+      have e3f2 : e3 (f + 2) = some (.ints [1, (k : Int)]) := by
+        rw [← he3]; simp only [evalNodes]
+        rw [evalNode_out]; exact hconst _ _
+      have e3lt : ∀ m, m < f → e3 m = env m := by
+        intro m hm; rw [← he3]
+        exact frame_fresh sem f _ env (by intro x hx; simp at hx; rcases hx with rfl | rfl | rfl <;> simp) m hm
+      obtain ⟨c1, c2⟩ := chain_eval sem e3 sm f (f + 1) (f + 2) (f + 3) (f + 4) (f + 5) (20 + 1) k sv
+        (by rw [e3lt sm hsm]; exact hsv) e3f e3f1 e3f2 (by omega) (by omega) (by omega)
+      generalize he6 : evalNodes sem e3
+          [{ op := .plain "Reshape", ver := 20 + 1, ins := [some sm, some f], out := f + 3 },
            { op := .plain "Expand", ver := 20 + 1, ins := [some (f + 3), some (f + 2)], out := f + 4 },
-           { op := .plain "Reshape", ver := 20 + 1, ins := [some (f + 4), some (f + 1)], out := f + 5 },
-           { op := .plain "Reshape", ver := 20 + 1, ins := [some bm, some f], out := f + 6 },
+           { op := .plain "Reshape", ver := 20 + 1, ins := [some (f + 4), some (f + 1)], out := f + 5 }] = e6 at c1 c2
+      obtain ⟨c3, c4⟩ := chain_eval sem e6 bm f (f + 1) (f + 2) (f + 6) (f + 7) (f + 8) (20 + 1) k bv
+        (by rw [c2 bm (by omega) (by omega) (by omega), e3lt bm hbm]; exact hbv)
+        (by rw [c2 f (by omega) (by omega) (by omega)]; exact e3f)
+        (by rw [c2 (f + 1) (by omega) (by omega) (by omega)]; exact e3f1)
+        (by rw [c2 (f + 2) (by omega) (by omega) (by omega)]; exact e3f2) (by omega) (by omega) (by omega)
+      generalize he9 : evalNodes sem e6
+          [{ op := .plain "Reshape", ver := 20 + 1, ins := [some bm, some f], out := f + 6 },
            { op := .plain "Expand", ver := 20 + 1, ins := [some (f + 6), some (f + 2)], out := f + 7 },
-           { op := .plain "Reshape", ver := 20 + 1, ins := [some (f + 7), some (f + 1)], out := f + 8 },
-           { op := .groupNorm gn', ver := 20 + 1, ins := [xI, some (f + 5), some (f + 8)], out := n.out }] : List ENode)
-        = [{ op := .const false [-1, 1], ver := 20 + 1, ins := [], out := f },
-           { op := .const false [-1], ver := 20 + 1, ins := [], out := f + 1 },
-           { op := .const false [1, (k : Int)], ver := 20 + 1, ins := [], out := f + 2 }] ++
-          ([{ op := .plain "Reshape", ver := 20 + 1, ins := [some sm, some f], out := f + 3 },
-           { op := .plain "Expand", ver := 20 + 1, ins := [some (f + 3), some (f + 2)], out := f + 4 },
-           { op := .plain "Reshape", ver := 20 + 1, ins := [some (f + 4), some (f + 1)], out := f + 5 }] ++
-          ([{ op := .plain "Reshape", ver := 20 + 1, ins := [some bm, some f], out := f + 6 },
-           { op := .plain "Expand", ver := 20 + 1, ins := [some (f + 6), some (f + 2)], out := f + 7 },
-           { op := .plain "Reshape", ver := 20 + 1, ins := [some (f + 7), some (f + 1)], out := f + 8 }] ++
-          [{ op := .groupNorm gn', ver := 20 + 1, ins := [xI, some (f + 5), some (f + 8)], out := n.out }])) from rfl]
-    rw [evalNodes_append, evalNodes_append, evalNodes_append]
-    generalize he3 : evalNodes sem env
-        [{ op := .const false [-1, 1], ver := 20 + 1, ins := [], out := f },
-         { op := .const false [-1], ver := 20 + 1, ins := [], out := f + 1 },
-         { op := .const false [1, (k : Int)], ver := 20 + 1, ins := [], out := f + 2 }] = e3
-    have e3f : e3 f = some (.ints [-1, 1]) := by
-      rw [← he3]; simp only [evalNodes]
-      rw [evalNode_ne sem _ _ (by simp), evalNode_ne sem _ _ (by simp), evalNode_out]; exact hconst _ _
-    have e3f1 : e3 (f + 1) = some (.ints [-1]) := by
-      rw [← he3]; simp only [evalNodes]
-      rw [evalNode_ne sem _ _ (by simp), evalNode_out]; exact hconst _ _
-    have e3f2 : e3 (f + 2) = some (.ints [1, (k : Int)]) := by
-      rw [← he3]; simp only [evalNodes]
-      rw [evalNode_out]; exact hconst _ _
-    have e3lt : ∀ m, m < f → e3 m = env m := by
-      intro m hm; rw [← he3]
-      exact frame_fresh sem f _ env (by intro x hx; simp at hx; rcases hx with rfl | rfl | rfl <;> simp) m hm
-    obtain ⟨c1, c2⟩ := chain_eval sem e3 sm f (f + 1) (f + 2) (f + 3) (f + 4) (f + 5) (20 + 1) k sv
-      (by rw [e3lt sm hsm]; exact hsv) e3f e3f1 e3f2 (by omega) (by omega) (by omega)
-    generalize he6 : evalNodes sem e3
-        [{ op := .plain "Reshape", ver := 20 + 1, ins := [some sm, some f], out := f + 3 },
-         { op := .plain "Expand", ver := 20 + 1, ins := [some (f + 3), some (f + 2)], out := f + 4 },
-         { op := .plain "Reshape", ver := 20 + 1, ins := [some (f + 4), some (f + 1)], out := f + 5 }] = e6 at c1 c2
-    obtain ⟨c3, c4⟩ := chain_eval sem e6 bm f (f + 1) (f + 2) (f + 6) (f + 7) (f + 8) (20 + 1) k bv
-      (by rw [c2 bm (by omega) (by omega) (by omega), e3lt bm hbm]; exact hbv)
-      (by rw [c2 f (by omega) (by omega) (by omega)]; exact e3f)
-      (by rw [c2 (f + 1) (by omega) (by omega) (by omega)]; exact e3f1)
-      (by rw [c2 (f + 2) (by omega) (by omega) (by omega)]; exact e3f2) (by omega) (by omega) (by omega)
-    generalize he9 : evalNodes sem e6
-        [{ op := .plain "Reshape", ver := 20 + 1, ins := [some bm, some f], out := f + 6 },
-         { op := .plain "Expand", ver := 20 + 1, ins := [some (f + 6), some (f + 2)], out := f + 7 },
-         { op := .plain "Reshape", ver := 20 + 1, ins := [some (f + 7), some (f + 1)], out := f + 8 }] = e9 at c3 c4
-    have e9lt : ∀ m, m < f → e9 m = env m := by
-      intro m hm
-      rw [c4 m (by omega) (by omega) (by omega), c2 m (by omega) (by omega) (by omega), e3lt m hm]
-    have e9s : e9 (f + 5) = some (.vec (expandScale k sv)) := by
-      rw [c4 (f + 5) (by omega) (by omega) (by omega)]; exact c1
-    have hxb : xI.bind e9 = xI.bind env := by
-      cases hxi : xI with
-      | none => rfl
-      | some xm => exact e9lt xm (hxm xm hxi)
-    simp only [evalNodes]
-    by_cases hqo : q = n.out
-    · subst hqo
-      rw [evalNode_out, evalNode_out]
-      simp only [List.map_cons, List.map_nil, hop, hver, hins, evalOp_sem_gn, hxb]
-      simp only [Option.bind, e9s, c3, hsv, hbv]
-      exact hl.groupNorm gn gn' g k (xI.bind env) sv bv hg (by omega) (by omega) hgk rfl rfl rfl rfl rfl rfl
-    · rw [evalNode_ne sem _ _ (by exact hqo), evalNode_ne sem env n hqo]
-      exact e9lt q hqf
+           { op := .plain "Reshape", ver := 20 + 1, ins := [some (f + 7), some (f + 1)], out := f + 8 }] = e9 at c3 c4
+      have e9lt : ∀ m, m < f → e9 m = env m := by
+        intro m hm
+        rw [c4 m (by omega) (by omega) (by omega), c2 m (by omega) (by omega) (by omega), e3lt m hm]
+      have e9s : e9 (f + 5) = some (.vec (expandScale k sv)) := by
+        rw [c4 (f + 5) (by omega) (by omega) (by omega)]; exact c1
+      have hxb : xI.bind e9 = xI.bind env := by
+        cases hxi : xI with
+        | none => rfl
+        | some xm => exact e9lt xm (hxm xm hxi)
+      simp only [evalNodes]
+      by_cases hqo : q = n.out
+      · subst hqo
+        rw [evalNode_out, evalNode_out]
+        simp only [List.map_cons, List.map_nil, hop, hver, hins, evalOp_sem_gn, hxb]
+        simp only [Option.bind, e9s, c3, hsv, hbv]
+        exact hl.groupNorm gn gn' g k (xI.bind env) sv bv hg (by omega) (by omega) hgk rfl rfl rfl rfl rfl rfl
+      · rw [evalNode_ne sem _ _ (by exact hqo), evalNode_ne sem env n hqo]
+        exact e9lt q hqf
 
 /-- One replacement step, all adapters: the wired nodes carry exactly the operators of the node-level model
 and evaluate, on the names of the source graph, to what the replaced node evaluated to. -/
-theorem rewrite_eval (sem : OpSem D E) (hl : Laws sem) (env : Env D E) (n : ENode) (v f b : Nat) (news : List Op)
+theorem rewrite_eval (sem : OpSem D E) (chan : D → Nat) (hl : Laws sem chan) (env : Env D E) (n : ENode) (v f b : Nat) (news : List Op)
     (hA : adapt n.op v = .replaced news) (hver : n.ver = v) (hb : n.Below b) (hbf : b ≤ f)
-    (hvalid : (n.op.meaning v).isSome) (ht : Truthful env n) :
+    (hvalid : (n.op.meaning v).isSome) (ht : Truthful chan env n) :
     ∃ news' f', rewriteE n v f = some (news', f') ∧ f ≤ f' ∧ news'.map (·.op) = news ∧ (∀ x ∈ news', x.ver = v + 1) ∧
       Agree b (evalNodes sem env news') (evalNode sem env n) := by
   cases hop : n.op with
   | plain _ => rw [hop] at hA; simp [adapt] at hA
   | const _ _ => rw [hop] at hA; simp [adapt] at hA
   | call _ => rw [hop] at hA; simp [adapt] at hA
-  | gridSample m a p => exact rewrite_eval_gs sem hl env n v f b news m a p hop hA hver hvalid
-  | dft a i o l ai r => exact rewrite_eval_dft sem hl env n v f b news a i o l ai r hop hA hver hb hbf hvalid ht
-  | groupNorm gn => exact rewrite_eval_gn sem hl env n v f b news gn hop hA hver hb hbf ht
-
-theorem below_of_rewrite {n : ENode} {v f b : Nat} {news : List ENode} {f' : Nat}
-    (h : rewriteE n v f = some (news, f')) (hb : n.Below b) (hbf : b ≤ f) : ∀ x ∈ news, x.Below f' := by
-  have hin : ∀ j m, n.ins.getD j none = some m → m < f := fun j m hm => Nat.lt_of_lt_of_le (getD_below hb j m hm) hbf
-  have hall : ∀ i ∈ n.ins, ∀ m, i = some m → m < f := fun i hi m hm => Nat.lt_of_lt_of_le (hb.2 i hi m hm) hbf
-  have hout : n.out < f := Nat.lt_of_lt_of_le hb.1 hbf
-  unfold rewriteE at h
-  split at h
-  · injection h with h; injection h with h1 h2; subst h1 h2
-    intro x hx; simp at hx; subst hx; exact ⟨hout, hall⟩
-  · injection h with h; injection h with h1 h2; subst h1 h2
-    intro x hx; simp at hx
-    rcases hx with rfl | rfl
-    · exact ⟨by simp, by simp⟩
-    · refine ⟨by simp; omega, ?_⟩
-      intro i hi m hm
-      simp at hi
-      rcases hi with rfl | rfl | rfl
-      · have := hin 0 m hm; omega
-      · have := hin 1 m hm; omega
-      · injection hm with hm; omega
-  · injection h with h; injection h with h1 h2; subst h1 h2
-    intro x hx
-    simp only [List.mem_cons, List.mem_nil_iff, or_false] at hx
-    rcases hx with rfl | rfl | rfl | rfl | rfl | rfl | rfl | rfl | rfl | rfl
-    all_goals (refine ⟨by simp <;> omega, ?_⟩; intro i hi m hm; simp at hi)
-    all_goals (try (rcases hi with rfl | rfl | rfl))
-    all_goals (try (rcases hi with rfl | rfl))
-    all_goals (first
-      | (injection hm with hm; omega)
-      | (have := hin 0 m hm; omega)
-      | (have := hin 1 m hm; omega)
-      | (have := hin 2 m hm; omega)
-      | skip)
-  · cases h
+  | gridSample m a p => exact rewrite_eval_gs sem chan hl env n v f b news m a p hop hA hver hvalid
+  | dft a i o l ai r => exact rewrite_eval_dft sem chan hl env n v f b news a i o l ai r hop hA hver hb hbf hvalid ht
+  | groupNorm gn => exact rewrite_eval_gn sem chan hl env n v f b news gn hop hA hver hb hbf hvalid ht
 
 theorem agree_symm {b : Nat} {e1 e2 : Env D E} (h : Agree b e1 e2) : Agree b e2 e1 := fun m hm => (h m hm).symm
 
 /-- The step loop with wiring preserves, on the names of the source graph, what the node evaluates to. -/
-theorem stepsE_eval (sem : OpSem D E) (hl : Laws sem) (b : Nat) :
+theorem stepsE_eval (sem : OpSem D E) (chan : D → Nat) (hl : Laws sem chan) (b : Nat) :
     ∀ (k v : Nat) (n : ENode) (f : Nat) (env env' : Env D E),
-      n.ver = v → n.Below b → b ≤ f → Agree b env env' → Truthful env n →
+      n.ver = v → n.Below b → b ≤ f → Agree b env env' → Truthful chan env n →
       (∀ v', v ≤ v' → v' < v + k → Good Op.meaning n.op v') → (n.op.meaning v).isSome →
       f ≤ (stepsE k v n f).2 ∧ Agree b (evalNode sem env n) (evalNodes sem env' (stepsE k v n f).1) := by
   intro k
@@ -524,7 +663,7 @@ theorem stepsE_eval (sem : OpSem D E) (hl : Laws sem) (b : Nat) :
       simp only []
       have hm : n.op.meaning (v + 1) = n.op.meaning v := meaning_mono_lemma _ _ hA
       have hev : evalNode sem env { n with ver := v + 1 } = evalNode sem env n :=
-        evalNode_ver sem hl env n (v + 1) (by rw [hver, hm])
+        evalNode_ver sem chan hl env n (v + 1) (by rw [hver, hm])
       have := ih (v + 1) { n with ver := v + 1 } f env env' rfl hb hbf hag ht
         (fun v' h1 h2 => hgood v' (by omega) (by omega)) (by simpa [hm] using hvalid)
       rw [hev] at this
@@ -533,7 +672,7 @@ theorem stepsE_eval (sem : OpSem D E) (hl : Laws sem) (b : Nat) :
       rw [hA] at hg
       simp only []
       have hev : evalNode sem env { n with ver := v + 1 } = evalNode sem env n :=
-        evalNode_ver sem hl env n (v + 1) (by rw [hver, hg])
+        evalNode_ver sem chan hl env n (v + 1) (by rw [hver, hg])
       have := ih (v + 1) { n with ver := v + 1 } f env env' rfl hb hbf hag ht
         (fun v' h1 h2 => hgood v' (by omega) (by omega)) (by simpa [hg] using hvalid)
       rw [hev] at this
@@ -541,7 +680,7 @@ theorem stepsE_eval (sem : OpSem D E) (hl : Laws sem) (b : Nat) :
     | replaced news =>
       simp only []
       obtain ⟨news', f', hr, hff, hops, hvers, hagr⟩ :=
-        rewrite_eval sem hl env' n v f b news hA hver hb hbf hvalid (truthful_agree n hb hag ht)
+        rewrite_eval sem chan hl env' n v f b news hA hver hb hbf hvalid (truthful_agree chan n hb hag ht)
       rw [hr]
       simp only []
       have hq := children_quiet hA
@@ -553,21 +692,21 @@ theorem stepsE_eval (sem : OpSem D E) (hl : Laws sem) (b : Nat) :
       refine ⟨hff, ?_⟩
       simp only []
       rw [evalNodes_map_congr sem _ news' env' (fun m hm e => by
-        refine evalNode_ver sem hl e m (v + 1 + k) ?_
+        refine evalNode_ver sem chan hl e m (v + 1 + k) ?_
         rw [hvers m hm]
         refine (meaning_quiet (fun v' hv' => hq m.op ?_ v' (by omega)) k).symm
         rw [← hops]; exact List.mem_map_of_mem hm)]
       exact agree_trans (agree_evalNode sem n hb hag) (agree_symm hagr)
 
 /-- Every node's facts hold in the environment in which the source run evaluates it. -/
-def AllTruthful (sem : OpSem D E) : Env D E → List ENode → Prop
+def AllTruthful (sem : OpSem D E) (chan : D → Nat) : Env D E → List ENode → Prop
   | _, [] => True
-  | env, n :: ns => Truthful env n ∧ AllTruthful sem (evalNode sem env n) ns
+  | env, n :: ns => Truthful chan env n ∧ AllTruthful sem chan (evalNode sem env n) ns
 
-theorem mapFresh_eval (sem : OpSem D E) (hl : Laws sem) (b k v : Nat) :
+theorem mapFresh_eval (sem : OpSem D E) (chan : D → Nat) (hl : Laws sem chan) (b k v : Nat) :
     ∀ (ns : List ENode) (f : Nat) (env env' : Env D E), b ≤ f → Agree b env env' →
       (∀ n ∈ ns, n.ver = v ∧ n.Below b ∧ (∀ v', v ≤ v' → v' < v + k → Good Op.meaning n.op v') ∧ (n.op.meaning v).isSome) →
-      AllTruthful sem env ns →
+      AllTruthful sem chan env ns →
       Agree b (evalNodes sem env ns) (evalNodes sem env' (mapFresh (stepsE k v) ns f).1) := by
   intro ns
   induction ns with
@@ -575,7 +714,7 @@ theorem mapFresh_eval (sem : OpSem D E) (hl : Laws sem) (b k v : Nat) :
   | cons n ns ih =>
     intro f env env' hbf hag hn ht
     obtain ⟨hv, hb, hg, hval⟩ := hn n (List.mem_cons_self ..)
-    obtain ⟨h1, h2⟩ := stepsE_eval sem hl b k v n f env env' hv hb hbf hag ht.1 hg hval
+    obtain ⟨h1, h2⟩ := stepsE_eval sem chan hl b k v n f env env' hv hb hbf hag ht.1 hg hval
     unfold mapFresh
     simp only [evalNodes, evalNodes_append]
     exact ih _ _ _ (Nat.le_trans hbf h1) h2 (fun n' hn' => hn n' (List.mem_cons_of_mem _ hn')) ht.2
@@ -614,9 +753,10 @@ theorem rewriteE_some (n : ENode) (v f : Nat) (news : List Op) (hA : adapt n.op 
     have hA' := hA
     simp only [adapt] at hA
     split at hA
-    · obtain ⟨g, _, hn, _⟩ := gn_replaced hA
-      subst hn
-      simp only [rewriteE, hop, hA', gnReplacement]; exact ⟨_, _, rfl, rfl⟩
+    · obtain ⟨_, _, _, g, _, hc⟩ := gn_replaced hA
+      rcases hc with ⟨_, hn⟩ | ⟨_, hn, _⟩
+      · subst hn; simp only [rewriteE, hop, hA', gnDynReplacement]; exact ⟨_, _, rfl, rfl⟩
+      · subst hn; simp only [rewriteE, hop, hA', gnReplacement]; exact ⟨_, _, rfl, rfl⟩
     · cases hA
 
 theorem mapFresh_ops (g : ENode → Nat → List ENode × Nat) (G : Op → List Op)
